@@ -66,6 +66,13 @@ size_t integrate_adaptive(Stepper stepper, System system, State &start_state,
 template <class Stepper, class System, class State, class Time>
 size_t integrate_const(Stepper stepper, System system, State &start_state,
                        Time start_time, Time end_time, Time dt);
+// observer variants of the fixed-output-time drivers: the observer is called at the output times only
+template <class Stepper, class System, class State, class Time, class Obs>
+size_t integrate_const(Stepper stepper, System system, State &start_state,
+                       Time start_time, Time end_time, Time dt, Obs observer);
+template <class Stepper, class System, class State, class Time, class Obs>
+Time integrate_n_steps(Stepper stepper, System system, State &start_state,
+                       Time start_time, Time dt, size_t num_of_steps, Obs observer);
 }  // namespace odeint
 }}  // namespace boost::numeric
 #endif
